@@ -11,6 +11,8 @@ STATES = ["None", "Created", "Sendable", "Sending", "Sent", "RxBusy", "RxDone", 
 LIFECYCLE_CAS = {
     ("None", "Created"), ("Created", "None"), ("Sendable", "Sending"), ("Sent", "RxBusy"),
     ("RxBusy", "RxDone"), ("RxDone", "RxProcessing"), ("RxProcessing", "None"),
+    # the transmit side lets go: sent, or (send failed) ready again - only if the slot is still its own
+    ("Sending", "Sent"), ("Sending", "Sendable"),
 }
 # transitions that grant a new party access to the buffer: must be compare-exchange
 GRANTING_TO = {"Created", "Sending", "RxBusy", "RxProcessing"}
@@ -23,11 +25,11 @@ EXPECTED_CAS = {
     ("<ReceiveFrameFut as Future>::poll", "RxDone", "RxProcessing"),
     ("<ReceivedFrame as Drop>::drop", "RxProcessing", "None"),
     ("<CreatedFrame as Drop>::drop", "Created", "None"),
+    ("SendableFrame::mark_sent", "Sending", "Sent"),
+    ("SendableFrame::release_sending_claim", "Sending", "Sendable"),
 }
 EXPECTED_STORES = {
     ("CreatedFrame::mark_sendable", "Sendable"): "publish by the sole holder (Created has no other party)",
-    ("SendableFrame::mark_sent", "Sent"): "transmit side finished",
-    ("SendableFrame::release_sending_claim", "Sendable"): "send failed, hand back",
     ("ReceiveFrameFut::release", "None"): "expiry/abandon",
     ("<ReceiveFrameFut as Future>::poll", "Sendable"): "retry",
     ("PduStorageRef::reset", "None"): "reset under MainDevice::release's unsafe contract",
